@@ -109,7 +109,7 @@ pub struct Exec {
 
 fn err_string(e: &lsmtk::SError) -> String {
     let s = format!("{e:?}");
-    s.chars().take(300).collect()
+    s.chars().take(900).collect()
 }
 
 fn bound(keys: &Keys, v: &Value) -> Bound<Vec<u8>> {
@@ -433,7 +433,9 @@ pub fn run_history(doc: &Value, root: &Path, out: &mut dyn Write, run_id: u64) -
     ev.insert("run".into(), json!(run_id));
     ev.insert("nkeys".into(), json!(nkeys));
     ev.insert("gc".into(), doc["opts"].get("gc-policy").cloned().unwrap_or(json!("versions = 1")));
+    crate::shimmark::mark(&json!({"op": "open-begin", "nkeys": nkeys}));
     let r = catch_unwind(AssertUnwindSafe(|| ex.open().and_then(|_| ex.observe(&mut ev))));
+    crate::shimmark::mark(&json!({"op": if matches!(r, Ok(Ok(()))) { "open-ack" } else { "open-err" }, "gets": ev.get("gets").cloned().unwrap_or(json!([]))}));
     let mut aborted = None;
     match r {
         Ok(Ok(())) => {}
@@ -455,6 +457,7 @@ pub fn run_history(doc: &Value, root: &Path, out: &mut dyn Write, run_id: u64) -
         let mut ev = serde_json::Map::new();
         ev.insert("i".into(), json!(i));
         ev.insert("op".into(), op.clone());
+        crate::shimmark::mark(&json!({"op": "begin", "i": i, "opv": op}));
         let r = catch_unwind(AssertUnwindSafe(|| {
             ex.step(op, &mut ev)?;
             if ev.get("ev").and_then(|x| x.as_str()) != Some("scanprog") {
@@ -486,6 +489,17 @@ pub fn run_history(doc: &Value, root: &Path, out: &mut dyn Write, run_id: u64) -
                 aborted = Some(format!("panic: {msg}"));
             }
         }
+        {
+            let mut m = serde_json::Map::new();
+            m.insert("op".into(), json!(if aborted.is_some() { "err" } else { "ack" }));
+            m.insert("i".into(), json!(i));
+            for k in ["ev", "gets", "scan", "err", "verdict", "did"] {
+                if let Some(v) = ev.get(k) {
+                    m.insert(k.into(), v.clone());
+                }
+            }
+            crate::shimmark::mark(&Value::Object(m));
+        }
         emit(ev, out);
         n += 1;
         if aborted.is_some() {
@@ -493,7 +507,65 @@ pub fn run_history(doc: &Value, root: &Path, out: &mut dyn Write, run_id: u64) -
         }
     }
     ex.db = Db::Closed;
+    crate::shimmark::mark(&json!({"op": "close"}));
     (n, aborted)
+}
+
+/// vh store-recover <doc.json> <root> <log>: reopen after a crash (fresh process), read everything back,
+/// run the offline verifier twice, and append the outcome as a mark to the shim log.
+pub fn recover(args: &[String]) -> ! {
+    let doc: Value = serde_json::from_str(&std::fs::read_to_string(&args[0]).unwrap()).unwrap();
+    let doc = if doc.is_array() { doc[0].clone() } else { doc };
+    let root = PathBuf::from(&args[1]);
+    std::panic::set_hook(Box::new(|_| {}));
+    let nkeys = doc["nkeys"].as_u64().unwrap_or(4) as usize;
+    let mut ex = Exec {
+        root: root.clone(),
+        opts: doc["opts"].clone(),
+        keys: Keys::new(doc["keyset"].as_str().unwrap_or("plain"), nkeys),
+        pad: doc["pad"].as_u64().unwrap_or(0) as usize,
+        db: Db::Closed,
+        seen: HashSet::new(),
+        ingest_counter: 0,
+        mode: doc["mode"].as_str().unwrap_or("kvs").to_string(),
+    };
+    let mut ev = serde_json::Map::new();
+    let r = catch_unwind(AssertUnwindSafe(|| ex.open().and_then(|_| ex.observe(&mut ev))));
+    let mut m = serde_json::Map::new();
+    match r {
+        Ok(Ok(())) => {
+            m.insert("op".into(), json!("recovered"));
+            m.insert("gets".into(), ev["gets"].clone());
+            m.insert("scan".into(), ev["scan"].clone());
+            // a verifier pass after recovery must accept (or back off), and change nothing
+            ex.db = Db::Closed;
+            let o = options(&root, &ex.opts);
+            let verdict = match catch_unwind(AssertUnwindSafe(|| lsmtk::LsmVerifier::open(o).and_then(|mut v| v.verify()))) {
+                Ok(Ok(())) => "ok".to_string(),
+                Ok(Err(e)) => {
+                    if lsmtk::error_code(&e) == Some(lsmtk::CODE_BACKOFF) { "backoff".to_string() } else { err_string(&e) }
+                }
+                Err(_) => "panic".to_string(),
+            };
+            m.insert("verdict".into(), json!(verdict));
+            let mut ev2 = serde_json::Map::new();
+            let r2 = catch_unwind(AssertUnwindSafe(|| ex.open().and_then(|_| ex.observe(&mut ev2))));
+            m.insert("gets_after_verify".into(), if matches!(r2, Ok(Ok(()))) { ev2["gets"].clone() } else { json!("error") });
+        }
+        Ok(Err(e)) => {
+            m.insert("op".into(), json!("recover-err"));
+            m.insert("err".into(), json!(e));
+        }
+        Err(_) => {
+            m.insert("op".into(), json!("recover-err"));
+            m.insert("err".into(), json!("panic"));
+        }
+    }
+    let mut f = std::fs::OpenOptions::new().create(true).append(true).open(&args[2]).unwrap();
+    writeln!(f, "{}", json!({"call": "mark", "n": 0, "mark": Value::Object(m)})).unwrap();
+    let mut rep = Report::default();
+    rep.evaluations = 1;
+    rep.finish()
 }
 
 pub fn main(args: &[String]) -> ! {
@@ -517,7 +589,9 @@ pub fn main(args: &[String]) -> ! {
         if let Some(a) = aborted {
             rep.known(&format!("aborted: {}", a.chars().take(80).collect::<String>()));
         }
-        let _ = std::fs::remove_dir_all(&root);
+        if std::env::var("VH_KEEP_DB").is_err() {
+            let _ = std::fs::remove_dir_all(&root);
+        }
     }
     out.flush().unwrap();
     rep.finish()
